@@ -222,7 +222,8 @@ class Gen:
         if op == "sqrt_abs":
             return ("un", "sqrt", (), ("un", "abs", (), e))
         if op == "reciprocal_exp":
-            return ("un", "reciprocal", (), ("un", "exp", (), e))
+            # reciprocal clips at the float maximum by design; keep its argument away from 0
+            return ("un", "reciprocal", (), ("bin", "add", (), ("un", "exp", (), e), ("num", 0.5, "real")))
         return ("un", op, (), e)
 
     def k_bin(self, depth, shape):
@@ -308,6 +309,8 @@ class Gen:
             return None
         e = self.real(depth - 1, big)
         idx = self.integer(depth - 1, size)
+        if self.ground and idx[0] == "slice":
+            idx = ("num", int(self.rng.integers(size)), size)  # Tensor[Slice] has no eager rule and would leave a lazy term
         return ("bin", "getitem", (("offset", offset),), e, idx)
 
     def k_outred(self, depth, shape):
